@@ -141,7 +141,8 @@ class RefScript:
 _KWORDER = {"normal": ("loc", "scale"), "uniform": ("low", "high"), "exponential": ("rate",),
             "gamma": ("concentration", "rate"), "beta": ("concentration1", "concentration0"),
             "laplace": ("loc", "scale"), "bernoulli": ("logits",), "poisson": ("rate",),
-            "mvn": ("loc", "covariance_matrix"), "dirichlet": ("concentration",)}
+            "mvn": ("loc", "covariance_matrix"), "dirichlet": ("concentration",), "categorical": ("logits",),
+            "flip": ("p",), "geometric": ("logits",)}
 
 
 def _order_params(rname, rc):
